@@ -76,6 +76,35 @@ PROPS = {
         "real_vs_stub": REAL_TXN,
         "assumptions": ["the statement's tail is cut off in properties.jsonl; R9 covers what is legible", "backend M: no async commit / 1PC requests are produced"],
     },
+    "C05": {
+        "engine": "txnsim",
+        "level_text": "MVCC histories with leftover locks of every kind are produced by crashing writers at random points; a reader client reads through point get, batch get, forward and reverse scan (cold/warm cache, batch sizes 2/3/5/256, key-only, snapshot timestamp moved) at timestamps around every start/commit ts while writers run, after they ended and after recovery; every result is compared with the MVCC truth at its timestamp; fault-free reads must end within ttl + back-off budget",
+        "level_note": "trusted: simkit, mock TiKV, truth read from the store after recovery; timestamps above the newest issued TSO are not read (not valid snapshots)",
+        "level": "exploration",
+        "modes": [
+            {"mode": "reads", "quick": {"runs": 3000}, "thorough": {"runs": 120000}},
+        ],
+        "rule": ("2-5 writer transactions on two clients (one or both crashed at a random RPC of a Commit: leftover pending / committed-primary / pessimistic locks), "
+                 "splits, merges, leader moves and region errors; a third client performs 6-15 snapshot read groups (2-5 reads each on one snapshot object) over "
+                 "get / batch-get with duplicates / iter / reverse iter with bounds on and off region borders; non-trivial = at least one transaction ended; "
+                 "distinct = canonical RPC traces"),
+        "real_vs_stub": REAL_TXN,
+        "assumptions": ["backend M (mocktikv)", "reads at the max timestamp only after recovery"],
+    },
+    "C07": {
+        "engine": "txnsim",
+        "level_text": "long transactions mixing get / batch-get / iter / reverse-iter with sets, deletes and savepoint steps (staging, release, cleanup, checkpoint, revert) over committed data, while other transactions commit and the topology changes; every read is compared with the model snapshot-truth overlaid with a stack-of-maps buffer",
+        "level_note": "trusted: simkit, mock TiKV, the map model; adversarial byte-string inputs for the in-memory tree are out of reach of this technique (C08, not applicable)",
+        "level": "exploration",
+        "modes": [
+            {"mode": "ryw", "quick": {"runs": 3000}, "thorough": {"runs": 120000}},
+            {"mode": "workload", "quick": {"runs": 1000}, "thorough": {"runs": 40000}},
+        ],
+        "rule": ("mode ryw: a preloading transaction, 1-2 transactions of 3-14 steps with savepoints, 0-2 concurrent committers, region errors / splits / merges / leader moves; "
+                 "mode workload: the C01 mixed workload (reads of own writes); non-trivial = at least one transaction ended; distinct = canonical RPC traces"),
+        "real_vs_stub": REAL_TXN,
+        "assumptions": ["keys are few and short: the property's adversarial key sets belong to C08"],
+    },
     "C06": {
         "engine": "txnsim",
         "level_text": "contending transactions with failing LockKeys steps under region errors and topology changes but no message loss; TTLs are set so that nothing can expire; once the clients' background work has drained the store is scanned for locks of ended transactions",
@@ -99,7 +128,7 @@ NOT_APPLICABLE = [
 ]
 
 ENGINES = [
-    {"name": "txnsim", "path": "sim/engines/txnsim", "serves_properties": ["C01", "C02", "C03", "C04", "C06"],
+    {"name": "txnsim", "path": "sim/engines/txnsim", "serves_properties": ["C01", "C02", "C03", "C04", "C05", "C06", "C07"],
      "kind_free_text": "whole-system deterministic simulation of transactional clients (synctest bubble, simulated transport / PD / TSO, seeded fault injection, MVCC ground-truth oracles)"},
 ]
 
